@@ -5,6 +5,7 @@ package rr
 // Contracts for the verifier in /verif (comment-only file; no declarations).
 
 //@ func runoffCoefficient(rainfall, coeff, runoff)
+//@   locals n, i
 //@   canary [C10.canary-coefficient] implies(rainfall.len > 0, runoff.at(0) == rainfall.at(0))
 //@   kernel
 //@   states none
@@ -22,6 +23,7 @@ package rr
 // and per-timestep water balance  rain - runoff - pf*(dS + dGW) = ET >= 0 ----
 
 //@ func simhyd(rainfall, pet, initialStore, initialGW, initialTotalStore, baseflowCoefficient, imperviousThreshold, infiltrationCoefficient, infiltrationShape, interflowCoefficient, perviousFraction, risc, rechargeCoefficient, smsc, runoff, quickflow, baseflow, store) returns (rS, rGW, rTotal)
+//@   locals nDays, soilMoistureStore, gw, totalStore, idx, i, rainToday, petToday, perviousIncident, imperviousIncident, imperviousEt, imperviousRunoff, interceptionEt, throughfall, soilMoistureFraction, infiltrationCapacity, infiltration, infiltrationXsRunoff, interflowRunoff, infiltrationAfterInterflow, recharge, soilInput, baseflowRunoff, soilEt, eventRunoff, totalRunoff
 //@   kernel
 //@   states initialStore, initialGW, initialTotalStore
 //@   noalias
@@ -45,6 +47,7 @@ package rr
 // ---- Surm (C10) ----
 
 //@ func surm(rainfall, pet, initialStore, initialGW, initialTotalStore, bfac, coeff, dseep, fcFrac, fimp, rfac, smax, sq, thres, runoffTS, quickflowTS, baseflowTS, storeTS) returns (rS, rGW, rTotal)
+//@   locals nTimesteps, soilMoistureStore, gw, totalStore, idx, fperv, fieldCapacity, i, rainThisTS, petThisTS, quickflow, imperviousRunoff, maxInfiltration, infiltration, infiltrationExcess, saturationExcess, perviousQuickflow, et, recharge, seep, baseflow, runoff
 //@   canary [C10.canary-surm] rS == initialStore
 //@   kernel
 //@   states initialStore, initialGW, initialTotalStore
@@ -83,6 +86,7 @@ package rr
 //@ # axiom [A-MATH.pow-monotone] forallr(a, forallr(b, forallr(p, implies(0 <= a && a <= b && p > 0, pow(a,p) <= pow(b,p)))))
 
 //@ func gr4j(rainfall, pet, s0, r0, n1, n2, q1State, q9State, x1, x2, x3, x4, runoff) returns (rS, rR, rN1, rN2, rQ1, rQ9)
+//@   locals nDays, S, Ps, Es, Pr, R, SH1, i, i, UH1, i, SH2, UH2, i, Perc, idx, day, netRainfall, netET, Q1, Q9, Tp, Qd, Qr, ech, todaysRainfall, todaysPET, ws, tws, i, i, i, i, qtot
 //@   canary [C15.canary-gr4j] rS == s0
 //@   kernel
 //@   states s0, r0, n1, n2, q1State, q9State
@@ -136,6 +140,7 @@ package rr
 // contents are carried twice, as states and scaled by (1+side); the scaled
 // copies are tied to the states by a proved invariant.
 //@ func sacramento
+//@   locals nDays, qq, dro, saved, alzfsm, alzfpm, pbase, alzfsc, alzfpc, idx, timestep, evapt, pliq, e1, e2, a, b, e3, e5, del, roimp, pav, adj, itime, duz, flobf, flosf, floin, hpl, ii, ninc, dinc, pinc, dlzp, dlzs, inc, ratio, addro, bf, lzair, perc, del, perctw, percfw, ratlp, ratls, percs, flwsf, j, k, flwbf, baseflowFraction, qf, e4, bf
 //@   noalias
 //@   panics allowed
 //@   kernel
@@ -152,11 +157,13 @@ package rr
 //@ spec asum(a []real, n int) real = ite(n <= 0, 0.0, asum(a, n-1) + a[n-1])
 
 //@ func sumSlice(s) returns (sum)
+//@   locals v
 //@   assigns nothing
 //@   ensures [C10.sac-sum] sum == asum(s, len(s))
 //@   loop 0 invariant -1 <= rangeindex && rangeindex < len(s) && sum == asum(s, rangeindex + 1)
 
 //@ func makeUnitHydrograph(uh1, uh2, uh3, uh4, uh5) returns (r)
+//@   locals base, sum, i
 //@   requires uh1 + uh2 + uh3 + uh4 + uh5 > 0
 //@   assigns nothing
 //@   ensures [C10.sac-uh-normalised] len(r) == 5 && r[0]*(uh1+uh2+uh3+uh4+uh5) == uh1 && r[1]*(uh1+uh2+uh3+uh4+uh5) == uh2 && r[2]*(uh1+uh2+uh3+uh4+uh5) == uh3 && r[3]*(uh1+uh2+uh3+uh4+uh5) == uh4 && r[4]*(uh1+uh2+uh3+uh4+uh5) == uh5
@@ -169,6 +176,7 @@ package rr
 // state row: [S, R, n1, n2, q1 (n2 values), q9 (n1 values)]
 
 //@ func packGR4JStates(s, r, n1, n2, q1, q9) returns (result)
+//@   locals result
 //@   ndmodel locations
 //@   requires n1 >= 0 && n2 >= 0 && len(q1) == n2 && len(q9) == n1
 //@   assigns nothing
@@ -180,6 +188,7 @@ package rr
 //@   ensures [C06.pack-buffers,C04.pack-buffers] forall(k, 0, n2, result.elem(0, 4 + k) == q1[k]) && forall(k, 0, n1, result.elem(0, 4 + n2 + k) == q9[k])
 
 //@ func extractGR4JStates(states) returns (s, r, n1, n2, q1, q9)
+//@   locals s, r, n1, n2, q1, q9
 //@   ndmodel locations
 //@   requires states != nil && states.rank == 1 && states.dim(0) >= 4
 //@   requires states.elem(2) >= 0 && states.elem(3) >= 0 && 4 + int(states.elem(2)) + int(states.elem(3)) <= states.dim(0)
@@ -189,6 +198,7 @@ package rr
 //@   ensures [C06.extract-buffers,C04.extract-buffers] len(q1) == n2 && len(q9) == n1 && forall(k, 0, n2, q1[k] == states.elem(4 + k)) && forall(k, 0, n1, q9[k] == states.elem(4 + n2 + k))
 
 //@ func (*GR4J).ApplyParameters(m, parameters)
+//@   locals nSets, newShape, paramIdx, paramSize
 //@   ndmodel locations
 //@   requires parameters.rank == 2 && parameters.dim(0) >= 4 && parameters.dim(1) >= 1
 //@   assigns m.X1, m.X2, m.X3, m.X4
@@ -198,6 +208,7 @@ package rr
 //@   ensures [C04.param-view] m.X4 != nil && m.X4.rank == 1 && m.X4.dim(0) == parameters.dim(1) && m.X4.root == parameters.root && forall(c, 0, parameters.dim(1), m.X4.idx(c) == parameters.idx(3, c))
 
 //@ func (*GR4J).Run(m, inputs, states, outputs)
+//@   locals inputDims, numCells, numStates, numInputSequences, inputLen, cellInputsShape, inputNewShape, outputStepSlice, outputSizeSlice, statesSizeSlice, inputsSizeSlice, doneChan, j, outputPosSlice, statesPosSlice, inputsPosSlice, x1, x2, x3, x4, initialStates, s, r, n1, n2, q1, q9, cellInputs, rainfall, pet, runoff, j
 //@   ndmodel locations
 //@   requires inputs.rank == 3 && states.rank == 2 && outputs.rank == 3
 //@   requires inputs.dim(0) >= 1 && inputs.dim(1) == 2 && inputs.dim(2) >= 0 && states.dim(0) >= 0 && states.dim(1) >= 4
